@@ -27,6 +27,8 @@ pub enum Ans {
 pub enum CmdAns {
     Exit { code: i32, stdout: String },
     SpawnErr,
+    /// killed by this signal (`ExitStatus::code()` is `None`)
+    Signal { sig: i32, stdout: String },
 }
 
 #[derive(Clone, Debug)]
@@ -75,6 +77,7 @@ pub fn enc_cmdans(a: &CmdAns) -> String {
     match a {
         CmdAns::Exit { code, stdout } => format!("exit {} {}", code, hx(stdout)),
         CmdAns::SpawnErr => "spawnerr".into(),
+        CmdAns::Signal { sig, stdout } => format!("signal {} {}", sig, hx(stdout)),
     }
 }
 
@@ -267,6 +270,11 @@ impl<T: ColumnType> AsyncDB for MockConn<T> {
                     stderr: vec![],
                 }),
                 CmdAns::SpawnErr => Err(std::io::Error::new(std::io::ErrorKind::NotFound, "spawnerr")),
+                CmdAns::Signal { sig, stdout } => Ok(Output {
+                    status: ExitStatus::from_raw(sig),
+                    stdout: stdout.into_bytes(),
+                    stderr: vec![],
+                }),
             }
         })
     }
